@@ -453,6 +453,13 @@ pub fn parse_choice_text(input: &str) -> Result<ParsedChoiceText, CompilerError>
         } else {
             String::new()
         };
+        // ... and only when the bracketed text does not close the quotation itself
+        // (`[.'],' he said` already shows `.'`).
+        let display_suffix = if choice_only_text.ends_with(display_suffix.as_str()) {
+            String::new()
+        } else {
+            display_suffix
+        };
         let choice_only_text = format!("{choice_only_text}{display_suffix}");
         let display = format!("{start_text}{choice_only_text}");
         let selected_text = if end_text.is_empty() {
